@@ -52,7 +52,7 @@ fn real_main() {
             if args.len() < 3 { usage(); }
             std::process::exit(checks::replay(&args[2]));
         }
-        "loader-probe" => { checks::c19::probe_main(&args[2], &args[3]); }
+        "loader-probe" => { checks::c19::probe_main(&args[2], &args[3], args.get(4).map(|a| a == "debug").unwrap_or(false)); }
         "genhash" => { checks::c15::genhash_main(&args[2]); }
         "derive" => {
             // derive <grammar_id> <token indices...>: show the reference derivations (debugging aid)
